@@ -55,11 +55,17 @@ def gen_spec(rng):
                 x = rng.randrange(1, 10 ** 6) / 997.0
             vals.append(x)
         holes = sorted(set(rng.randrange(nrec) for _ in range(rng.randrange(0, 3))))
-        vars_.append({'name': n, 'units': rng.choice(UNITS), 'missing': rng.choice(MISSING),
+        miss = rng.choice(MISSING)
+        if rng.random() < 0.4:
+            # genuine values right next to the missing code (distinct at %.6e)
+            for _ in range(rng.randrange(1, 3)):
+                vals[rng.randrange(nrec)] = float(miss) * (1.0 + rng.choice([-1, 1]) *
+                                                          rng.choice([2e-6, 4e-6, 1e-5, 1e-4]))
+        vars_.append({'name': n, 'units': rng.choice(UNITS), 'missing': miss,
                       'vals': vals, 'holes': holes})
     ncom = rng.randrange(0, 6)
     comments = {k: rng.choice(['nobody@example.org', 'NASA DC-8', 'R0', 'see header',
-                               'value: with colon', 'x'])
+                               'value: with colon', 'x', '', '  ', 'N/A'])
                 for k in rng.sample(COMMENTS, ncom)}
     t0 = rng.choice([0, 43200, 86399, 3600])
     return {'nrec': nrec, 'vars': vars_, 'comments': comments,
